@@ -220,7 +220,13 @@ class QueueLimits(Monitor):
         elif kind == 'command':
             ok = bool(data['result'][0]) if data.get('result') else False
             if ok and data['name'] == 'force_trigger_tasks':
+                pool = getattr(self.w.schd, 'pool', None)
                 for tid in data['kwargs'].get('tasks', []):
+                    it = pool._get_task_by_id(tid) if pool else None
+                    if it is not None and it.state.status in ACTIVE:
+                        # documented: triggering a task whose job is already
+                        # in process has no effect
+                        continue
                     self.manual.add(tid)
                 COUNTS.bump('trigger_commands')
             elif ok and data['name'] == 'hold':
